@@ -1276,7 +1276,7 @@ func vC16Stress(seed int64, size, workers, opsPer int) map[string]any {
 		return map[string]any{"k": "go-stress", "go_fail": fmt.Sprintf("deadlock: %d workers and a ForEach reader on cache.New(%d) did not finish", workers, size), "nontrivial": true,
 			"desc": map[string]any{"size": size, "workers": workers, "ops_per_worker": opsPer}}
 	}
-	goFail, fkey := "", ""
+	goFail := ""
 	if dupes.Load() > 0 {
 		goFail = fmt.Sprintf("ForEach concurrent with writers yielded a key twice (%d times in %d passes)", dupes.Load(), passes.Load())
 	}
@@ -1309,11 +1309,10 @@ func vC16Stress(seed int64, size, workers, opsPer int) map[string]any {
 		}
 	}
 	if goFail == "" && n > eff {
-		// same class as the scheduled replay below
-		goFail = fmt.Sprintf("at quiescence %d entries, capacity %d", n, eff)
-		fkey = "swc-sparse-scan-race"
+		// same class as the scheduled replay below (swc-sparse-scan-race, fixed by 47c8f66): strict
+		goFail = fmt.Sprintf("at quiescence %d entries, capacity %d, no writer left", n, eff)
 	}
-	return map[string]any{"k": "go-stress", "go_fail": goFail, "fkey": fkey, "nontrivial": true,
+	return map[string]any{"k": "go-stress", "go_fail": goFail, "nontrivial": true,
 		"desc": map[string]any{"size": size, "workers": workers, "ops_per_worker": opsPer, "final_len": c.Len(), "reachable": n}}
 }
 
@@ -1470,12 +1469,14 @@ func vC16CasStress(seed int64, workers, iters int) map[string]any {
 		"desc": map[string]any{"workers": workers, "iters": iters, "successful_cas": total}}
 }
 
-// Finding swc-sparse-scan-race: three Cache.Add calls in flight on a sparse
-// cache.  Two writers are held in the middle of their spill scan (the test
+// Regression for swc-sparse-scan-race (fixed in /repo by 47c8f66, strict now; with
+// the old spill loop this ended with Len()=2 at capacity 1): three Cache.Add calls
+// in flight on a sparse cache.  Two writers are held in the middle of their spill scan (the test
 // owns the lock of the segment they reach next — any reader or writer of that
 // segment would do the same), a third runs to completion and pays its toll of
-// two with the entries the first two were still going to reach.  Both resume,
-// find nothing, and return with the count above capacity.
+// two with the entries the first two were still going to reach.  Both resume and
+// find nothing on the rest of their first round; the old loop returned there with
+// the count above capacity, the repaired one goes round again.
 func vC16RaceSparse() map[string]any {
 	old := runtime.GOMAXPROCS(1)
 	defer runtime.GOMAXPROCS(old)
@@ -1514,7 +1515,7 @@ func vC16RaceSparse() map[string]any {
 	if worst > capacity {
 		goFail = "occupancy above capacity with no concurrent writer left: " + res
 	}
-	return map[string]any{"k": "go-race-sparse", "go_fail": goFail, "fkey": "swc-sparse-scan-race", "nontrivial": true,
+	return map[string]any{"k": "go-race-sparse", "go_fail": goFail, "nontrivial": true,
 		"desc": map[string]any{"schedule": "Add(x@5); [Add(y@6) scans to seg 2, held] [Add(a@0) scans to seg 2, held] Add(o@1) evicts x,y; release", "observed": res}}
 }
 
@@ -1758,7 +1759,7 @@ func vC16Sched(r *rand.Rand, pk vC16LockPeek, capacity int64, prefix []vC16SCall
 		return fmt.Sprintf("after releasing segment %d: %d of %d threads neither return nor reach another lock", j, started-fin-sum, started)
 	}
 	var steps []string
-	goFail, fkey := "", ""
+	goFail := ""
 	capped := capacity >= 1
 	for _, p := range progs {
 		for _, cl := range p {
@@ -1805,7 +1806,6 @@ func vC16Sched(r *rand.Rand, pk vC16LockPeek, capacity int64, prefix []vC16SCall
 		}
 		if goFail == "" && capped && int64(entries) > capacity+int64(started-returned) {
 			goFail = fmt.Sprintf("%s: %d entries, capacity %d, %d calls in flight", name, entries, capacity, started-returned)
-			fkey = "swc-sparse-scan-race"
 		}
 	}
 	complete := true
@@ -1895,7 +1895,6 @@ func vC16Sched(r *rand.Rand, pk vC16LockPeek, capacity int64, prefix []vC16SCall
 		"k":          "sched",
 		"coq":        fmt.Sprintf("CaseSched %s %s %s %s %v", lst(pre), lst(pr), lst(steps), lst(rd), complete),
 		"go_fail":    goFail,
-		"fkey":       fkey,
 		"nontrivial": maxWait >= 2,
 		"desc":       map[string]any{"name": name, "threads": T, "capacity": capacity, "actions": len(steps), "complete": complete, "max_waiting_at_one_lock": maxWait},
 	}
